@@ -26,6 +26,7 @@ import (
 
 	"github.com/tetratelabs/wazero"
 	"github.com/tetratelabs/wazero/api"
+	"github.com/tetratelabs/wazero/experimental"
 	"github.com/tetratelabs/wazero/sys"
 	"pgregory.net/rapid"
 
@@ -54,6 +55,9 @@ type Case struct {
 	// cache, with close-on-context-done off / on, compiled the same guest binaries (and stays open).
 	Cache  string `json:"cache,omitempty"`
 	Primed string `json:"primed,omitempty"`
+	// Listener: "" | "all": the guest modules are compiled with an experimental
+	// FunctionListenerFactory in the context that attaches a listener to every function
+	Listener string `json:"listener,omitempty"`
 	// Overlap: further calls on the same instance, each on its own goroutine and api.Function
 	Overlap *Overlap `json:"overlap,omitempty"`
 }
@@ -111,6 +115,20 @@ type Result struct {
 	Heartbeat  bool   // the guest was running when the trigger was armed
 	TriggerLag time.Duration
 }
+
+// listenerFactory attaches a listener that does nothing to every function.
+type listenerFactory struct{}
+
+func (listenerFactory) NewFunctionListener(api.FunctionDefinition) experimental.FunctionListener {
+	return nopListener{}
+}
+
+type nopListener struct{}
+
+func (nopListener) Before(context.Context, api.Module, api.FunctionDefinition, []uint64, experimental.StackIterator) {
+}
+func (nopListener) After(context.Context, api.Module, api.FunctionDefinition, []uint64) {}
+func (nopListener) Abort(context.Context, api.Module, api.FunctionDefinition, error)    {}
 
 // ---- watchdog ----
 
@@ -244,7 +262,11 @@ func runCase(c *Case) (res Result) {
 	}
 	s := &c.Shape
 	cycleBin := buildCycle(s)
-	cmCycle, err := rt.CompileModule(bg, cycleBin)
+	cctx := bg // the context of compilation
+	if c.Listener != "" {
+		cctx = experimental.WithFunctionListenerFactory(bg, listenerFactory{})
+	}
+	cmCycle, err := rt.CompileModule(cctx, cycleBin)
 	if err != nil {
 		res.Msg = "harness: the generated guest does not compile: " + err.Error()
 		return
@@ -285,7 +307,7 @@ func runCase(c *Case) (res Result) {
 		}
 		mod = inner
 		if s.twoModules() {
-			cmOuter, err := rt.CompileModule(bg, buildOuter(s))
+			cmOuter, err := rt.CompileModule(cctx, buildOuter(s))
 			if err != nil {
 				res.Msg = "harness: outer module: " + err.Error()
 				return
@@ -632,6 +654,9 @@ func genCase(t *rapid.T) *Case {
 	c := &Case{Engine: rapid.SampledFrom(wz.Engines).Draw(t, "engine")}
 	c.Shape = genShape(t)
 	c.Procs = rapid.SampledFrom([]int{1, 2, 16, 16}).Draw(t, "gomaxprocs")
+	if rapid.IntRange(0, 3).Draw(t, "listener") == 0 {
+		c.Listener = "all"
+	}
 	c.Shape.Mem = rapid.SampledFrom([]string{"", "nomax", "nomax", "max"}).Draw(t, "memory")
 	if rapid.IntRange(0, 3).Draw(t, "with-cache") == 0 {
 		c.Cache = rapid.SampledFrom([]string{"mem", "mem", "dir"}).Draw(t, "cache")
@@ -723,6 +748,12 @@ func labelsOf(c *Case, r Result) []string {
 		l = append(l, fmt.Sprintf("calls:cycle-length:%d", len(s.Edges)))
 	}
 	l = append(l, "memory:"+s.Mem)
+	if c.Listener != "" {
+		l = append(l, "function-listeners", "function-listeners:"+s.Kind+":"+c.Engine)
+		if s.tailOnly() {
+			l = append(l, "function-listeners:tail-call-cycle:"+c.Engine)
+		}
+	}
 	if c.Cache != "" {
 		l = append(l, "cache:"+c.Cache+":primed-by-runtime-with-option-"+c.Primed)
 	}
